@@ -224,7 +224,7 @@ func SpecIs4In6(s string) bool {
 
 // an IPv4 address field that the encoder can write: absent, or 4 bytes (the form FromBytes produces), or 16 bytes in
 // IPv4-mapped form (net.IPv4): the domain stated in property C01
-//@ define ipOK(ip) = ip == nil || len(ip) == 4
+//@ define ipOK(ip) = ip == nil || len(ip) == 4 || SpecIs4In6(string(ip))
 
 //@ contract writeIP
 //@   requires lexOK(b) && ipOK(ip)
@@ -347,12 +347,16 @@ func specZeros(n int) string {
 	return string(make([]byte, n))
 }
 
-// specIP4: the 4 octets written for an address field: zeros for an absent address
+// specIP4: the 4 octets written for an address field: zeros for an absent address, the last four octets of an
+// IPv4-mapped 16-byte address (the form net.IPv4 and net.IPv4zero have)
 //@ contract specIP4
 //@   ensures len(result) == 4
 func specIP4(ip string) string {
 	if len(ip) == 4 {
 		return ip
+	}
+	if SpecIs4In6(ip) {
+		return ip[12:16]
 	}
 	return specZeros(4)
 }
